@@ -194,6 +194,8 @@ def within(printed, q, decimals):
 
 
 def cmp_stats(scn, res, m):
+    if m["exit"] != 0:
+        return []         # no report is expected from a run that the model says fails (exit status is compared separately)
     st = res.stats()
     if st is None:
         return [("stats-report-missing", None, m["out"][:3])]
